@@ -39,11 +39,11 @@ RefVal(op, s, a, b) ==
       [] op = "get_up_to" -> IF a <= Len(s) /\ IsCharBoundary(s, a) THEN Some(UpTo(s, a)) ELSE None
       [] op = "get_range" -> IF a <= b /\ b <= Len(s) /\ IsCharBoundary(s, a) /\ IsCharBoundary(s, b)
                              THEN Some(Slice(s, a, b)) ELSE None
-      [] op = "str_from"  -> From(s, Min(a, Len(s)))
-      [] op = "str_up_to" -> UpTo(s, Min(a, Len(s)))
-      [] op = "str_range" -> LET st == Min(a, Len(s)) e == Min(b, Len(s)) IN
+      [] op = "str_from"  -> From(s, MinOf(a, Len(s)))
+      [] op = "str_up_to" -> UpTo(s, MinOf(a, Len(s)))
+      [] op = "str_range" -> LET st == MinOf(a, Len(s)) e == MinOf(b, Len(s)) IN
                              IF st <= e THEN Slice(s, st, e) ELSE <<>>
-      [] op = "split_at"  -> <<UpTo(s, Min(a, Len(s))), From(s, Min(a, Len(s)))>>
+      [] op = "split_at"  -> <<UpTo(s, MinOf(a, Len(s))), From(s, MinOf(a, Len(s)))>>
 
 Ref(op, s, a, b) == IF RefPanics(op, s, a, b) THEN Panic ELSE RefVal(op, s, a, b)
 
